@@ -5,7 +5,7 @@ import random, datetime as _dt, concurrent.futures as cf
 from . import base, tlc, explore, conform, shims
 
 NORET = 99
-TYPES = ["mis", "exp", "bad", "err", "tox"]
+TYPES = ["mis", "exp", "bad", "err", "tox", "txr", "dup"]      # dup: items that are value-equal to each other (same type, content, source, timestamp), told apart by object identity       # txr: a sensitive item whose secure disposal (the toxic callback) raises
 
 
 class OffsetClock:
@@ -60,7 +60,7 @@ class Adapter:
         lys = m.Lysosome(max_queue_size=c["maxq"], auto_digest_threshold=c["auto"],
                          retention_hours=(10 ** 6 if c["ret"] == NORET else c["ret"]),
                          digesters={m.WasteType.ORPHANED_RESOURCE: raising, m.WasteType.EXPIRED_CACHE: ok},
-                         on_toxic=lambda waste: w["toxic"].append(_wid(waste)), silent=True)
+                         on_toxic=lambda waste: _on_toxic(w, waste), silent=True)
         # observation of digester invocations: wrap the registered digesters (logging only)
         try:
             table = lys._digesters
@@ -111,6 +111,12 @@ class Adapter:
                 t = a["t"]
                 if t == "mis":
                     lys.ingest(m.Waste(m.WasteType.MISFOLDED_PROTEIN, {"id": k, "raw_input": "P-%d" % k, "error": "E"}, "src"))
+                elif t == "dup":
+                    obj = m.Waste(m.WasteType.MISFOLDED_PROTEIN, {"raw_input": "same text", "error": "E"}, "src")
+                    w.setdefault("objs", {})[id(obj)] = (k, obj)          # (the object is kept alive, so its id() is not reused)
+                    w["byobj"] = w["objs"]
+                    _REG[id(obj)] = k
+                    lys.ingest(obj)
                 elif t == "exp" and a.get("k") == 1:
                     import io, contextlib
                     with contextlib.redirect_stdout(io.StringIO()):
@@ -125,9 +131,9 @@ class Adapter:
                     lys.ingest(m.Waste(m.WasteType.ORPHANED_RESOURCE, {"id": k}, "src"))
                 elif t == "err":
                     lys.ingest_error(ValueError("boom"), "src", {"id": k})
-                elif t == "tox":
+                elif t in ("tox", "txr"):
                     w["secrets"].append("S-%d-secret" % k)
-                    lys.ingest_sensitive({"id": k, "secret": "S-%d-secret" % k}, "src")
+                    lys.ingest_sensitive({"id": k, "secret": "S-%d-secret" % k, "explode": t == "txr"}, "src")
             elif op == "digest":
                 r = lys.digest(None if a["k"] == 0 else a["k"])
                 obs["ret"], obs["nerr"] = int(r.disposed), len(r.errors)
@@ -155,7 +161,18 @@ class Adapter:
         return obs
 
 
+def _on_toxic(w, waste):
+    w["toxic"].append(_wid(waste))
+    if isinstance(waste.content, dict) and waste.content.get("explode"):
+        raise RuntimeError("secure disposal failed")
+
+
+_REG = {}
+
+
 def _wid(waste):
+    if id(waste) in _REG and isinstance(waste.content, dict) and waste.content.get("raw_input") == "same text":
+        return _REG[id(waste)]
     c = waste.content
     if isinstance(c, dict):
         if "id" in c:
@@ -169,7 +186,7 @@ def _wid(waste):
 
 def constants(c, maxitems=1000):
     return {"MaxQueue": c["maxq"], "AutoThreshold": c["auto"], "Retention": c["ret"], "Types": tlc.tla_set(tlc.tla_str(t) for t in c["types"]),
-            "Raising": '{"bad"}', "Sensitive": '{"tox"}', "MaxItems": maxitems, "NoRetention": NORET}
+            "Raising": '{"bad", "txr"}', "Sensitive": '{"tox", "txr"}', "MaxItems": maxitems, "NoRetention": NORET}
 
 
 def sig(clause, e, pre):
@@ -231,7 +248,7 @@ def configs(tier):
 def run(tier, conc=True):
     R = base.Run("C13", tier)
     quick = tier == "quick"
-    mcs = [({"maxq": 3, "auto": 2, "ret": 1, "types": ["mis", "bad", "tox"]}, 5), ({"maxq": 2, "auto": 8, "ret": NORET, "types": ["mis", "bad", "tox"]}, 4)]
+    mcs = [({"maxq": 3, "auto": 2, "ret": 1, "types": ["mis", "bad", "tox"]}, 5), ({"maxq": 2, "auto": 8, "ret": NORET, "types": ["mis", "txr", "tox"]}, 4)]
     if not quick:
         mcs += [({"maxq": 4, "auto": 3, "ret": 2, "types": ["mis", "bad", "tox", "exp"]}, 5), ({"maxq": 4, "auto": 8, "ret": 1, "types": ["mis", "bad", "tox"]}, 6)]     # 0.6M / 3.9M states, 1-6 min
     for c, mi in mcs:
